@@ -34,6 +34,8 @@ class ExtProbe:
         return "ExtProbe(%r)" % self.image
 
 
+_COLL = {"atlas": ("Jets", "xAOD::Jet"), "cms_aod": ("Muons", "reco::Muon"), "cms_miniaod": ("Muons", "pat::Muon")}
+
 _MD = {
     "decl": [{"metadata_type": "add_method_type_info", "type_string": "xAOD::Jet", "method_name": "pt", "return_type": "int"}],
     "decldef": [{"metadata_type": "add_method_type_info", "type_string": "xAOD::TruthParticle", "method_name": "pt", "return_type": "int"},
@@ -44,11 +46,27 @@ _MD = {
                "initialize_lines": ["leak_init();"], "link_libraries": ["LeakLib"]},
               {"metadata_type": "add_job_script", "name": "leak_script", "script": ["leak_job_option()"]}],
     "ext": [{"metadata_type": "vpext", "image": "leaked-image"}],
+    # a collection replacing the built-in the probes use, and a new one (per backend: _md_for)
+    "coll": None,
+    "fn": [{"metadata_type": "add_cpp_function", "name": "vp_leak_fn", "include_files": ["vp_leak_fn.h"], "arguments": ["x"],
+            "code": ["auto result = x * 3;"], "result_name": "result", "return_type": "int"}],
     "plain": [],
 }
+_COLL_MD = {
+    "atlas": lambda name: {"metadata_type": "add_atlas_event_collection_info", "name": name, "include_files": ["xAODCaloEvent/CaloClusterContainer.h"],
+                           "container_type": "xAOD::CaloClusterContainer", "element_type": "xAOD::CaloCluster", "contains_collection": True,
+                           "link_libraries": ["xAODCaloEvent"]},
+    "cms_aod": lambda name: {"metadata_type": "add_cms_aod_event_collection_info", "name": name, "include_files": ["DataFormats/VpLeak/interface/Leak.h"],
+                             "container_type": "reco::VpLeakCollection", "element_type": "reco::VpLeak", "contains_collection": True, "element_pointer": False},
+}
+
+
+def _md_for(kind, backend):
+    if kind == "coll":
+        return [_COLL_MD[backend](_COLL[backend][0]), _COLL_MD[backend]("VpLeakColl")]
+    return list(_MD[kind])
 _BAD_MD = {"metadata_type": "no_such_metadata_type_vp"}
 
-_COLL = {"atlas": ("Jets", "xAOD::Jet"), "cms_aod": ("Muons", "reco::Muon"), "cms_miniaod": ("Muons", "pat::Muon")}
 
 
 def _query(backend, md_list, body="j.pt()", bank='"bk1"', coll=None):
@@ -65,7 +83,7 @@ def _run_op(op, execs, outdir):
         exe = execs["same"]
     else:
         exe = translate.executor_for(backend)
-    md = list(_MD[op["kind"]])
+    md = _md_for(op["kind"], backend)
     if op["kind"] == "ext":
         exe.add_extended_md({"vpext": ExtProbe()})
     if op["out"] == "mfail":
@@ -81,7 +99,8 @@ def _run_op(op, execs, outdir):
     return res["outcome"]
 
 
-PROBES = ["pt_same", "pt_new", "enum_same", "blocks_same", "cms_new", "mini_new", "truth_same", "truth_new", "again_same"]
+PROBES = ["pt_same", "pt_new", "enum_same", "blocks_same", "cms_new", "mini_new", "truth_same", "truth_new", "again_same",
+          "newcoll_same", "fn_same"]
 
 
 def _run_probe(probe, execs, outdir, fresh=False):
@@ -106,6 +125,12 @@ def _run_probe(probe, execs, outdir, fresh=False):
         # this probe always contains "this very object was translated before"; the reference (empty
         # history) is its first translation
         exe, backend, src = execs["same"], "atlas", _query("atlas", _MD["decl"] + _MD["block"])
+    elif probe == "newcoll_same":
+        # a collection no backend knows: refused in a fresh process, and after any history
+        exe, backend, src = execs["same"], "atlas", _query("atlas", [], coll="VpLeakColl")
+    elif probe == "fn_same":
+        # a function nobody declared in THIS query
+        exe, backend, src = execs["same"], "atlas", _query("atlas", [], "vp_leak_fn(j.pt())")
     elif probe == "cms_new":
         exe, backend, src = None, "cms_aod", _query("cms_aod", [])
     elif probe == "mini_new":
@@ -235,9 +260,9 @@ def run(tier, hists_override=None):
         "traces_validated_against_impl": len(hists),
         "evaluations": len(recs),
         "distinct_nontrivial": len(changing),
-        "rule": "histories: every sequence of operations (5 metadata kinds x ok / failure in translation / failure in the client-side rewrite / failure in metadata x same/other/other-backend executor) "
+        "rule": "histories: every sequence of operations (7 metadata kinds x ok / failure in translation / failure in the client-side rewrite / failure in metadata x same/other/other-backend executor) "
                 "up to the MaxLen of %s, enumerated by TLC (%d, exhaustive=%s); each followed by %d probes; non-trivial = the history declares "
-                "something (method type, enum, blocks, extended metadata); distinct by history" % (cfg, total, exhaustive, len(PROBES)),
+                "something (method type, enum, blocks, extended metadata, collection, C++ function); distinct by history" % (cfg, total, exhaustive, len(PROBES)),
         "exhaustive": exhaustive,
         "histories": len(hists),
         "probes": PROBES,
